@@ -1657,12 +1657,12 @@ func c13Uvarint(c *Ctx) error {
 	for _, v := range npo {
 		got := wire.VerifNextPowerOf2(v)
 		oracle := ""
-		if got < v {
+		if got < v || got < 0 {
 			oracle = fmt.Sprintf("nextPowerOf2(%d) = %d is smaller than its argument", v, got)
 		}
 		c.Out.Emit(&lib.Case{Group: "npo2", Class: "npo2", Nontrivial: v > 32768,
 			Input: map[string]interface{}{"v": v}, Obs: map[string]interface{}{"npo2": got}, Oracle: oracle,
-			Coq: fmt.Sprintf("mk_npo2 $ID%%N 0x%x 0x%x", v, got)})
+			Coq: fmt.Sprintf("mk_npo2 $ID%%N 0x%x 0x%x", v, uint64(got))}) // a negative result is shown to the model as its two's complement (never a "-0x1" term)
 	}
 	return nil
 }
